@@ -206,6 +206,8 @@ func verifyFunction(P *Program, S *Specs, key string) (res *FuncResult) {
 					env.prove = true
 					c.oblige("ensures", en.Tags, r.guard, env.boolClause(en), en.Src, en.Text)
 				}
+				// cover: this return must be reachable under everything assumed so far (anti-vacuity, thorough tier)
+				c.oblige("cover", []string{"cover"}, r.guard, "false", ct.Src, "reachability of a return of "+key)
 				if a := ct.Flags["alloc"]; a != "" {
 					env := f.specEnv(r.st, x.rootOld, nil)
 					env.withResults(fn.Signature, r.vals)
